@@ -40,7 +40,7 @@ REQUIRED_CLAUSES = ['carrier-independent', 'still-rejected-after-a-caught-eat_ch
 ASSUMPTIONS = ['reference verdict derived from the trait vector the generator used, per the statement\'s own list',
                'DONT-CARE: qcow2 v2 with bytes where v3 keeps feature bits, v3 with only bits 0/1/3, descriptors that do '
                'not fit their sector count, lines after a NUL in a VMDK descriptor']
-INTERPRETER_FLAGS = [[], ['-O'], [], ['-bb']]
+INTERPRETER_FLAGS = [[], ['-O'], ['-X', 'dev'], ['-bb']]
 SHARDS = {'quick': 8, 'thorough': 16}
 MIN_DISTINCT = {'quick': 5000, 'thorough': 50000}
 LEVEL_TEXT = ('Exploration with a trait-derived three-valued oracle, exhaustive over the bounded MBR family, the 64 single '
@@ -735,6 +735,16 @@ def run(ctx):
             for style in ('comment', 'comment-tail', 'indented-comment'):
                 specs.append({'gen': 'vmdk', 'params': {'ctype_first': first, 'ctype': second, 'min_total': 0,
                                                         'ctype_first_style': style}})
+    # descriptor lines are what stands between two '\\n': a vertical tab, form feed, file/group/record separator or lone
+    # carriage return inside a line does not end it - an extent naming a path, or an unrecognised line, stays one when
+    # such a character cuts it into pieces that would each be fine
+    for ctrl in ('\x0b', '\x0c', '\x1c', '\x1d', '\x1e', '\r'):
+        for line in ('RW 8 SPARSE "x.vmdk"' + ctrl + '# /etc/passwd', 'rw' + ctrl + 'ddb junk',
+                     'RW 8 FLAT "disk-flat.vmdk" 0' + ctrl + 'ddb.path = "/dev/sda"',
+                     'rdonly 1 sparse "a"' + ctrl + 'x=/etc/shadow', '# comment' + ctrl + 'surprise' if False else 'noaccess' + ctrl + '#'):
+            for footer in (False, True):
+                specs.append({'gen': 'vmdk', 'params': {'extra': [[line, False]], 'min_total': 0, 'footer': footer,
+                                                        'ctype': rng.choice(['monolithicSparse', 'streamOptimized'])}})
     # bytes that are not NUL after the NUL that ends the descriptor text (left-overs of an earlier, longer descriptor; binary):
     # not part of the descriptor - a clean image stays clean, an unclean one stays unclean
     for stale in ('ascii', 'utf8', 'late-utf8', 'bin1', 'bin2'):
